@@ -140,7 +140,7 @@ async def _scenario(sc):
 
 def resolve(m, callers):
     """('res', ('caller', k), tok) -> concrete id"""
-    if m[0] in ("res", "err", "req", "batch") and m[1][0] == "caller":
+    if m[0] in ("res", "err", "req", "batch", "cancelnotif") and m[1][0] == "caller":
         cid = callers[m[1][1]][0]
         return (m[0], ("int" if isinstance(cid, int) else "str", cid)) + tuple(m[2:])
     return m
@@ -189,6 +189,14 @@ def gen(ctx):
                 arr = [(t + gap * k, ("res", ("caller", k), 100 + k)) for k in range(len(ds)) if t + gap * k < ds[k] - 2]
                 if arr:
                     out.append({"callers": [(names[k], ds[k]) for k in range(len(ds))], "arrivals": arr})
+    # the peer issues a request of its own bearing caller a's id, then withdraws it (notifications/cancelled naming that id),
+    # then answers both callers: ids are per direction, nobody's request is cancelled
+    for t in (3, 20, 45):
+        for n in (1, 2, 3):
+            cs = [(names[k], 300) for k in range(n)]
+            arr = [(t, ("req", ("caller", 0))), (t + 1, ("cancelnotif", ("caller", 0)))] + \
+                  [(t + 2 + k, ("res", ("caller", k), 100 + k)) for k in range(n)]
+            out.append({"callers": cs, "arrivals": arr})
     # one caller WITHDRAWS its request (cancellation token, triggered from another task); the other callers' answers arrive
     # well after the cancelled call has ended (it ends at its next 0.5 s poll at the latest): they reach their callers
     for cancel_at in (5, 20, 49, 60):
@@ -212,7 +220,9 @@ def gen(ctx):
             arr.append((t, (kind, ("caller", k), 100 + k) if kind == "res" else ("err", ("caller", k), -32603, None)))
         for _j in range(rng.randrange(0, 4)):
             arr.append((rng.choice(times), rng.choice((("notif",), ("nullerr",), ("nullres",), ("res", ("str", "zz-other"), 5),
-                                                          ("req", ("caller", rng.randrange(n)))))))
+                                                          ("req", ("caller", rng.randrange(n))),
+                                                          # the peer withdraws a request of ITS OWN that bears a caller's id
+                                                          ("cancelnotif", ("caller", rng.randrange(n)))))))
         arr.sort(key=lambda x: x[0])
         out.append({"callers": callers, "arrivals": arr})
     return out
